@@ -20,9 +20,12 @@ impl IggyDuration {
 pub struct IggyTimestamp { pub micros: u64 }
 impl IggyTimestamp {
     pub fn as_micros(&self) -> (r: u64) ensures r == self.micros { self.micros }
+    // A-clock: an arbitrary u64; `is_clock_reading` only marks the provenance of the value (no assumption on it)
     #[verifier::external_body]
-    pub fn now() -> (r: IggyTimestamp) { unimplemented!() }
+    pub fn now() -> (r: IggyTimestamp) ensures is_clock_reading(r.micros as int), { unimplemented!() }
+    pub fn from(micros: u64) -> (r: IggyTimestamp) ensures r.micros == micros { IggyTimestamp { micros } }
 }
+pub uninterp spec fn is_clock_reading(n: int) -> bool;
 
 pub fn byte_size_from(v: u64) -> (r: u64) ensures r == v { v }
 
@@ -130,7 +133,7 @@ pub fn std_sort_u64(v: &mut Vec<u64>)
 
 // ================================ spec vocabulary of C14 ==========================================
 // what delete()/persist() (I/O) may not change: everything except the four file handles, the shared parent counters
-// and the two file-size cells; the newest stored message (as served by the read path) stays the same
+// and the two file-size cells
 pub open spec fn seg_core_eq(a: Segment, b: Segment) -> bool {
     &&& b == (Segment {
             log_writer: b.log_writer, log_reader: b.log_reader, index_writer: b.index_writer, index_reader: b.index_reader,
@@ -141,7 +144,6 @@ pub open spec fn seg_core_eq(a: Segment, b: Segment) -> bool {
             messages_count_of_parent_partition: b.messages_count_of_parent_partition,
             log_size_bytes: b.log_size_bytes, index_size_bytes: b.index_size_bytes,
             ..a })
-    &&& seg_last_ts(a) == seg_last_ts(b)
 }
 
 // the state Segment::create must produce for a new segment at `start` (from the property: it starts exactly at `start`,
@@ -375,6 +377,12 @@ pub trait VecSchemas<T> {
             sorted_by_key(final(self).sv(), key@),
             final(self).sv().to_multiset() == old(self).sv().to_multiset(),
             sorted_by_key(old(self).sv(), key@) ==> final(self).sv() == old(self).sv();
+    // `v.sort_by(|a, b| b.K.cmp(&a.K))`: stable DESCENDING sort by key K
+    fn sort_by_key_desc_spec(&mut self, key: Ghost<spec_fn(T) -> u64>)
+        ensures
+            final(self).sv().len() == old(self).sv().len(),
+            forall|i: int, j: int| 0 <= i <= j < final(self).sv().len() ==> key@(#[trigger] final(self).sv()[i]) >= key@(#[trigger] final(self).sv()[j]),
+            final(self).sv().to_multiset() == old(self).sv().to_multiset();
 }
 impl<T> VecSchemas<T> for Vec<T> {
     open spec fn sv(&self) -> Seq<T> { self@ }
@@ -382,6 +390,8 @@ impl<T> VecSchemas<T> for Vec<T> {
     fn retain_spec(&mut self, f: Ghost<spec_fn(T) -> bool>) { unimplemented!() }
     #[verifier::external_body]
     fn sort_by_key_spec(&mut self, key: Ghost<spec_fn(T) -> u64>) { unimplemented!() }
+    #[verifier::external_body]
+    fn sort_by_key_desc_spec(&mut self, key: Ghost<spec_fn(T) -> u64>) { unimplemented!() }
 }
 
 // `v.iter_mut().find(|x| P)`: a mutable reference to the FIRST element satisfying P, if any
@@ -438,13 +448,10 @@ pub proof fn lemma_keep_update_dropped<T>(s: Seq<T>, i: int, x: T, f: spec_fn(T)
 
 pub proof fn lemma_sorted_strict_is_sorted_by_start(s: Seq<Segment>)
     requires segs_sorted(s),
-    ensures sorted_by_key(s, by_start()), sorted_by_key(s, |a0: Segment| a0.start_offset),
+    ensures sorted_by_key(s, by_start()),
 {
     reveal(segs_sorted);
     assert forall|i: int, j: int| 0 <= i <= j < s.len() implies by_start()(#[trigger] s[i]) <= by_start()(#[trigger] s[j]) by {
-        if i < j { assert(s[i].start_offset < s[j].start_offset); }
-    }
-    assert forall|i: int, j: int| 0 <= i <= j < s.len() implies (|a0: Segment| a0.start_offset)(#[trigger] s[i]) <= (|a0: Segment| a0.start_offset)(#[trigger] s[j]) by {
         if i < j { assert(s[i].start_offset < s[j].start_offset); }
     }
 }
